@@ -1,6 +1,7 @@
 import AtsimModel.Model.Eam
 import Mathlib.Data.String.Basic
 import AtsimModel.Lemmas.KernelQ
+import AtsimModel.Lemmas.TokSem
 /-!
 # C04 — Finnis-Sinclair densities land in the slot the consumer reads for that pair
 
@@ -208,4 +209,5 @@ theorem C04_kernel_args (nrho : Nat) (drho : Rat) (nr : Nat) (dr : Rat) :
     kernel_close
   · kernel_unfold [k_tabeam_fs_args]
     kernel_close
+
 end Atsim.C04
